@@ -323,6 +323,7 @@ func mcpConfine(inb []byte) (any, error) {
 		cfgPath := filepath.Join(dir, "Hookaidofile")
 		foreign := filepath.Join(dir, "foreign.conf")
 		foreignNew := filepath.Join(dir, "foreign_new.conf")
+		relForeign := filepath.Join(dir, "rel", "Hookaidofile")
 		dbPath := filepath.Join(dir, "hookaido.db")
 		_ = os.WriteFile(cfgPath, []byte(mcpValidConfig), 0o600)
 		_ = os.WriteFile(foreign, []byte("# foreign\n"), 0o600)
@@ -362,6 +363,13 @@ func mcpConfine(inb []byte) (any, error) {
 			args["path"] = cfgPath + ".bak"
 		case "prefixdir":
 			args["path"] = filepath.Join(filepath.Dir(dir), filepath.Base(dir)+"x", "Hookaidofile")
+		case "dotdot_symlink":
+			// <dir>/current -> <dir>/rel/v12 ; <dir>/current/../Hookaidofile is, for the kernel, <dir>/rel/Hookaidofile - another file -
+			// although it collapses lexically onto the configured path
+			_ = os.MkdirAll(filepath.Join(dir, "rel", "v12"), 0o755)
+			_ = os.WriteFile(relForeign, []byte("# foreign\n"), 0o600)
+			_ = os.Symlink(filepath.Join(dir, "rel", "v12"), filepath.Join(dir, "current"))
+			args["path"] = dir + "/current/../Hookaidofile"
 		}
 		if c.Tool == "config_apply" {
 			args["content"] = c.Content
@@ -404,13 +412,22 @@ func mcpConfine(inb []byte) (any, error) {
 		r.CfgContent = string(cb)
 		fb, _ := os.ReadFile(foreign)
 		r.ForeignChanged = string(fb) != "# foreign\n"
+		if c.PathKind == "dotdot_symlink" {
+			rb, _ := os.ReadFile(relForeign)
+			if string(rb) != "# foreign\n" {
+				r.ForeignChanged = true
+			}
+			if rents, err := os.ReadDir(filepath.Join(dir, "rel")); err == nil && len(rents) != 2 {
+				r.ForeignNew = true
+			}
+		}
 		if _, err := os.Stat(foreignNew); err == nil {
 			r.ForeignNew = true
 		}
 		ents, _ := os.ReadDir(dir)
 		for _, e := range ents {
 			switch e.Name() {
-			case "Hookaidofile", "foreign.conf", "foreign_new.conf", "hookaido.db", "hookaido.db-wal", "hookaido.db-shm":
+			case "Hookaidofile", "foreign.conf", "foreign_new.conf", "hookaido.db", "hookaido.db-wal", "hookaido.db-shm", "current", "rel":
 			default:
 				r.OtherFiles = append(r.OtherFiles, e.Name())
 			}
